@@ -19,7 +19,7 @@
  *       trots = time-rotating handler, unit SEC mod 2 (rotates as the per-call clock advances)
  *       their stream = all backup / period files in chronological order + the live file
  *   tick <sec>                                  (thr, vs: call k of every thread happens at clock + k*tick)
- *   setlevel <handler index> <level>            (after add_handler)
+ *   setlevel <handler index> <level>            (muggle_log_handler_set_level between two calls; any level)
  *   failmalloc <k>                              (seq: k-th tracked malloc of the next log fails)
  *   log <level> <srcline> <s|ds|lit> <hex text> (seq)
  *   threads <n> <msgs> <paylen>                 (thr, vs)
@@ -613,11 +613,26 @@ static void print_oracles(void)
 	fflush(stdout);
 }
 
+/* async logger: the writer thread tests a handler's level when it PROCESSES a message.  To make
+ * "the level at the time of the call" well defined for a level change between two calls, the
+ * driver first waits until the writer thread has finished every message logged so far (all
+ * message blocks released: the allocation count is back to what it was after setup). */
+static int g_base_live;
+static void async_fence(void)
+{
+	if (!is_async) return;
+	for (int spin = 0; spin < 5000000 && c16_acct_live() != g_base_live; spin++)
+		if ((spin & 1023) == 1023) sched_yield();
+	if (c16_acct_live() != g_base_live) printf("fence timeout\n");
+}
+
 static void run_seq(void)
 {
+	g_base_live = c16_acct_live();
 	for (int i = 0; i < nops; i++) {
 		op_t *o = &ops[i];
 		if (o->kind == OP_SETLEVEL) {
+			async_fence();
 			if (o->a >= 0 && o->a < nh && h_ok[o->a]) muggle_log_handler_set_level(&H[o->a].base, o->b);
 		} else if (o->kind == OP_FAIL) {
 			c16_acct_fail_at(o->a);
